@@ -20,10 +20,10 @@ import (
 
 type ltrans struct {
 	*trans
-	list    string            // Go name of the slice parameter
-	listCur string            // current Gallina name of the list
-	summers map[string]bool   // KBNSummer variables
-	kfields []string          // fields of KBNSummer, declaration order
+	list    string          // Go name of the slice parameter
+	listCur string          // current Gallina name of the list
+	summers map[string]bool // KBNSummer variables
+	kfields []string        // fields of KBNSummer, declaration order
 	lines   []string
 	lcnt    int
 	closers int
